@@ -56,6 +56,8 @@ func c08World() map[string]spec.V {
 	w["an1"] = spec.V{K: "dyn", L: []spec.V{{K: "string", S: "bob", N: "Name"}, {K: "int", S: "41", N: "Age"}}}
 	// a caller's list of floats whose shortest text differs from their exact decimal expansion
 	w["farr"] = spec.V{K: "slice", L: []spec.V{{K: "float32", S: "0.3"}, {K: "float64", S: "1e21"}, {K: "float64", S: "0.00001"}, {K: "int", S: "7"}}}
+	// a record whose keys differ only in the case of their letters, and none spelled the way the formulas ask
+	w["cased"] = spec.V{K: "map", M: map[string]spec.V{"ID": {K: "int", S: "1"}, "Id": {K: "int", S: "2"}, "iD": {K: "int", S: "3"}, "NAME": {K: "string", S: "x"}, "Name": {K: "string", S: "y"}}}
 	w["an2"] = spec.V{K: "dyn", L: []spec.V{{K: "int", S: "30", N: "Age"}, {K: "string", S: "eve", N: "Name"}, {K: "float64", S: "2.5", N: "Score"}}}
 	return w
 }
@@ -430,6 +432,7 @@ func TestC08Repeat(t *testing.T) {
 			progs = append(progs, f)
 		}
 	}
+	progs = append(progs, "[cased.id, cased.name]", "cased.id ?? cased.name ?? 'none'", "cased!.id", "[cased.ID, cased.id, cased.Id, cased.iD]")
 	// list literals spread over a variadic tail, short enough to fit whatever spare room the argument list has
 	progs = append(progs, "max([7]...)", "max(i, [f64]...)", "min([i, 2]...)", "fnV(1, [2]...)", "fnV(1, 2, [3]...)", "fnV(1, 2, [3, 4]...)", "fnSV('k', [s]...)", "fnSV('k', 'a', [s, 'b']...)", "[max([i]...), min(1, [2]...), max(1, 2, [3, 4]...)]")
 	// a caller's list read as a whole and spread over a variadic tail, in one formula and over one record
@@ -486,7 +489,7 @@ func c08Battery() []string {
 	// rejected texts (each expects a different token / message): their errors are part of the outcome
 	out = append(out, "[1, 2", "(1 + 2", "f(1 2)", "a ? b", "a.", "'open", "1_", "1e", "a # b", "[1,]", "f(a...b)", "x = ", "a b", "1 +\n", "g(1 ? 2 ]")
 	out = append(out, "fnV(1,2,3)", "fnSV('k', 1, 'a', null)", "fnA([1,[2]])", "fnC(2.5)", "fn0() + 1", "[m.b.c, st.Name, mi.a, arr]", "$q = 2.5, [round($q), roundBank($q), $q]",
-		"[an1.Age, an1.Name]", "[an2.Name, an2.Age, an2.Score]", "an1.Name + an2.Name", "typeof ctx", "[1,2,3] , 'x' + 2.50", "i64 + 1", "u64 % 10", "f64 * 3", "[1e400, 1e-400, 5e-324 + 0]", "this.s + this.i")
+		"[cased.id, cased.name, cased.iD]", "cased.id ?? 'none'", "[cased.ID, cased.id, cased.Id]", "[an1.Age, an1.Name]", "[an2.Name, an2.Age, an2.Score]", "an1.Name + an2.Name", "typeof ctx", "[1,2,3] , 'x' + 2.50", "i64 + 1", "u64 % 10", "f64 * 3", "[1e400, 1e-400, 5e-324 + 0]", "this.s + this.i")
 	return out
 }
 
